@@ -126,6 +126,7 @@ Definition frame_woken := frame_all Rwoken Rwoken_refl Rwoken_trans
   (fun c H => Rwoken_same H _ eq_refl)
   (fun t H => Rwoken_same H _ eq_refl)
   Rwoken_add_gen
+  (fun n H => Rwoken_same H (add_aborted n H) eq_refl)
   (fun c H => Rwoken_same H _ eq_refl).
 Lemma wake_sets_woken f c s g H : getd false g (woken (wake (S f) (WCmd c s g) H)) = true.
 Proof.
@@ -157,6 +158,7 @@ Proof.
     + destruct (new_chan H) as [ch H1]. apply IH in E; exact E.
     + destruct (new_chan H) as [ch H1]. apply IH in E; exact E.
     + destruct (new_tflag H) as [u H1]. apply IH in E; exact E.
+    + apply IH in E; exact E.
     + apply IH in E; exact E.
     + apply IH in E; exact E.
     + apply IH in E; exact E.
@@ -259,7 +261,7 @@ Theorem evict_sound : forall fuel cid slot H H',
 Proof.
   intros fuel cid slot H H' E. unfold run_task in E. cbn [funs step_funs rrun_task] in E. unfold run_task_body in E.
   destruct (slab_get slot (gcmd cid H)) as [t|] eqn:ES; [|discriminate].
-  destruct (tf_abort (gtf (t_uid t) H)); [discriminate|].
+  match type of E with (if ?b then _ else _) = _ => destruct b end; [discriminate|].
   set (g := length (woken H)) in *. set (w := WCmd cid slot g) in *.
   match type of E with context[rpoll (funs fuel) cid w ?fs ?H1] => destruct (rpoll (funs fuel) cid w fs H1) as [[pr H2]|] eqn:E2; [|discriminate] end.
   destruct pr as [fs'|]; [|discriminate].
